@@ -82,6 +82,28 @@ fn main() {
                 println!("loaded frames {} keyframes {} done {}", img.num_loaded_frames(), img.num_loaded_keyframes(), img.is_loading_done());
             }
         }
+        "render" => {
+            // debugging aid: read a file and render every keyframe (panics propagate)
+            let data = std::fs::read(args.get(2).unwrap_or_else(|| usage())).expect("read file");
+            let threads: usize = args.get(3).and_then(|s| s.parse().ok()).unwrap_or(0);
+            let pool = if threads == 0 { jxl_oxide::JxlThreadPool::none() } else { jxl_oxide::JxlThreadPool::rayon(Some(threads)) };
+            match jxl_oxide::JxlImage::builder().pool(pool).read(std::io::Cursor::new(&data[..])) {
+                Ok(mut img) => {
+                    // optional crop: render <file> <threads> <left> <top> <width> <height>
+                    let n = |i: usize| args.get(i).and_then(|s| s.parse::<u32>().ok());
+                    if let (Some(l), Some(t), Some(w), Some(h)) = (n(4), n(5), n(6), n(7)) {
+                        img.set_image_region(jxl_oxide::CropInfo { left: l, top: t, width: w, height: h });
+                    }
+                    for k in 0..img.num_loaded_keyframes() {
+                        match img.render_frame(k) {
+                            Ok(r) => println!("keyframe {k}: ok, {} colour + {} extra channels", r.color_channels().len(), r.extra_channels().1.len()),
+                            Err(e) => println!("keyframe {k}: error {e}"),
+                        }
+                    }
+                }
+                Err(e) => println!("read error: {e}"),
+            }
+        }
         "gencorpus" => {
             // gencorpus <dir> <n> <seed>: valid streams from the jxlref generators (+ 2 config bytes) as fuzzing seeds
             let dir = std::path::PathBuf::from(args.get(2).unwrap_or_else(|| usage()));
